@@ -127,9 +127,10 @@ def run(ctx) -> None:
     comps = [n for n in walk_local(ca.node) if isinstance(n, ast.DictComp)]
     ok = len(comps) == 1 and src(comps[0].generators[0].iter) == "graph.outputs" and any("is not sentinel" in src(i) for i in comps[0].generators[0].ifs) and any("in state.values" in src(i) for i in comps[0].generators[0].ifs)
     rep.add("C16.R3", f"{ca.qname}", ok, ca.loc(), "all-outputs collector iterates graph.outputs and drops the sentinel by identity" if ok else "the all-outputs collector no longer iterates graph.outputs only / no longer excludes the emit sentinel by identity")
-    t = src(cs.node)
+    from sa.pattern import solve
+
     loops = [n for n in walk_local(cs.node) if isinstance(n, ast.For)]
-    ok = len(loops) == 1 and src(loops[0].iter) == "names" and "is not sentinel" in t and any(isinstance(n, ast.Assign) and src(n.targets[0]) == "result[k]" and src(n.value) == "state.values[k]" for n in walk_local(cs.node))
+    ok = len(loops) == 1 and bool(solve(["for _K in names: ...", "_R[_K] = state.values[_K]", "state.values[_K] is not sentinel", "return _R"], cs.node))
     rep.add("C16.R3", f"{cs.qname}", ok, cs.loc(), "selected collector iterates the requested names and drops the sentinel by identity" if ok else "the selected-outputs collector can return names outside the selection or a sentinel value")
     # sentinel passed is the module constant
     sent_ok = all(any(isinstance(a, ast.Name) and a.id == "_EMIT_SENTINEL" for a in c.args) for c in db.calls_in(fo) if call_names(db, c, fo) & {"_collect_all_outputs", "_collect_selected_outputs"})
